@@ -1,4 +1,4 @@
-package main
+package c04
 
 import (
 	"context"
@@ -14,6 +14,8 @@ import (
 	"encoding/pem"
 	"errors"
 	"fmt"
+	_ "github.com/sassoftware/relic/v8/verifharness/allsigners"
+	"github.com/sassoftware/relic/v8/verifharness/core"
 	"math/big"
 	"net/http"
 	"net/http/httptest"
@@ -74,19 +76,19 @@ type c04Client struct {
 	Roles []string `json:"roles"`
 }
 type c04Req struct {
-	Ep       string   `json:"ep"` // sign getkey list home
-	Key      string   `json:"key"`
-	NoFile   bool     `json:"no_file"`
-	SigType  string   `json:"sigtype"`
-	Digest   string   `json:"digest"`
-	Peer     string   `json:"peer"`
-	TLS      string   `json:"tls"`  // leaf name or ""
-	XFF      []string `json:"xff"`  // header values
-	HdrCert  string   `json:"hdr"`  // leaf name or ""
-	Status   int      `json:"status"`
-	Touched  []string `json:"touched"` // "token:GetKey:name"
-	Listing  []string `json:"listing"`
-	Body     string   `json:"body,omitempty"`
+	Ep      string   `json:"ep"` // sign getkey list home
+	Key     string   `json:"key"`
+	NoFile  bool     `json:"no_file"`
+	SigType string   `json:"sigtype"`
+	Digest  string   `json:"digest"`
+	Peer    string   `json:"peer"`
+	TLS     string   `json:"tls"` // leaf name or ""
+	XFF     []string `json:"xff"` // header values
+	HdrCert string   `json:"hdr"` // leaf name or ""
+	Status  int      `json:"status"`
+	Touched []string `json:"touched"` // "token:GetKey:name"
+	Listing []string `json:"listing"`
+	Body    string   `json:"body,omitempty"`
 }
 type c04Case struct {
 	ID      int         `json:"id"`
@@ -98,10 +100,10 @@ type c04Case struct {
 }
 
 func init() {
-	commands["c04"] = func(c *ctx) error {
+	core.Commands["c04"] = func(c *core.Ctx) error {
 		zerolog.SetGlobalLevel(zerolog.Disabled)
-		os.MkdirAll(c.scratch, 0o755)
-		r := &rng{s: c.seed}
+		os.MkdirAll(c.Scratch, 0o755)
+		r := &core.Rng{S: c.Seed}
 		now := time.Now()
 		eku := []x509.ExtKeyUsage{x509.ExtKeyUsageClientAuth}
 		caA, caAKey := mkCert("CA-A", 1, nil, nil, true, nil, now.Add(-time.Hour), now.Add(24*time.Hour))
@@ -119,26 +121,26 @@ func init() {
 		subset := func(pct int) []string {
 			var out []string
 			for _, x := range roles {
-				if r.chance(pct) {
+				if r.Chance(pct) {
 					out = append(out, x)
 				}
 			}
 			return out
 		}
 		nconf := 12
-		if c.tier == "thorough" {
+		if c.Tier == "thorough" {
 			nconf = 120
 		}
-		if c.n > 0 {
-			nconf = c.n
+		if c.N > 0 {
+			nconf = c.N
 		}
 		peers := []string{"203.0.113.9:5555", "10.0.0.1:443", "@"}
 		for ci := 0; ci < nconf; ci++ {
 			cs := &c04Case{ID: ci, Tokens: []string{"t1", "t2"}, Trusted: []string{"10.0.0.0/8", "192.168.7.7", "2001:db8::1"}}
 			cs.Keys = []c04Key{
-				{"k1", "t1", "", subset(50), false}, {"k2", "t1", "", subset(50), false}, {"k3", "t2", "", subset(70), r.chance(60)},
+				{"k1", "t1", "", subset(50), false}, {"k2", "t1", "", subset(50), false}, {"k3", "t2", "", subset(70), r.Chance(60)},
 				{"kn", "", "", subset(70), false}, {"kx", "tX", "", subset(70), false},
-				{"a1", "", "k1", subset(30), r.chance(20)}, {"ad", "", "nope", subset(50), false}, {"aa", "", "a1", subset(50), false},
+				{"a1", "", "k1", subset(30), r.Chance(20)}, {"ad", "", "nope", subset(50), false}, {"aa", "", "a1", subset(50), false},
 				{"ah", "", "k3", nil, false}, {"an", "", "kn", nil, false}, {"at", "t2", "k2", subset(50), false},
 			}
 			cs.Clients = []c04Client{{"leaf1", subset(50)}, {"leaf2", subset(50)}, {"CA:A", subset(60)}}
@@ -175,18 +177,20 @@ func init() {
 				}
 			}
 			sb.WriteString("server:\n  trustedproxies: [\"10.0.0.0/8\", \"192.168.7.7\", \"2001:db8::1\"]\n")
-			p := filepath.Join(c.scratch, "c04.yml")
+			p := filepath.Join(c.Scratch, "c04.yml")
 			os.WriteFile(p, []byte(sb.String()), 0o644)
 			cfg, err := config.ReadFile(p)
 			if err != nil {
 				return fmt.Errorf("config: %w\n%s", err, sb.String())
 			}
-			toks := map[string]*fakeToken{}
+			toks := map[string]*core.FakeToken{}
 			tm := map[string]token.Token{}
 			for _, tn := range cs.Tokens {
 				tn := tn
-				ft := &fakeToken{conf: cfg.Tokens[tn]}
-				ft.getKey = func(ctx context.Context, name string) (token.Key, error) { return nil, errors.New("fake token: stop here") }
+				ft := &core.FakeToken{Conf: cfg.Tokens[tn]}
+				ft.GetKeyFn = func(ctx context.Context, name string) (token.Key, error) {
+					return nil, errors.New("fake token: stop here")
+				}
 				toks[tn] = ft
 				tm[tn] = ft
 			}
@@ -264,9 +268,7 @@ func init() {
 						req.Header.Set("Ssl-Client-Cert", url.PathEscape(string(pm)))
 					}
 					for _, ft := range toks {
-						ft.mu.Lock()
-						ft.log = nil
-						ft.mu.Unlock()
+						ft.ResetLog()
 					}
 					rec := httptest.NewRecorder()
 					h.ServeHTTP(rec, req)
@@ -277,7 +279,7 @@ func init() {
 					}
 					sort.Strings(tns)
 					for _, tn := range tns {
-						for _, l := range toks[tn].calls() {
+						for _, l := range toks[tn].Calls() {
 							rq.Touched = append(rq.Touched, tn+":"+l)
 						}
 					}
@@ -290,13 +292,13 @@ func init() {
 					cs.Reqs = append(cs.Reqs, rq)
 				}
 			}
-			c.emit(cs)
+			c.Emit(cs)
 		}
 		return nil
 	}
 
 	// realip in isolation: recorded address and certificate source for arbitrary peers / hop lists
-	commands["c04ip"] = func(c *ctx) error {
+	core.Commands["c04ip"] = func(c *core.Ctx) error {
 		type ipcase struct {
 			ID      int      `json:"id"`
 			Peer    string   `json:"peer"`
@@ -306,7 +308,7 @@ func init() {
 			Addr    string   `json:"addr"`
 			CertSrc string   `json:"cert_src"` // tls hdr none
 		}
-		r := &rng{s: c.seed ^ 0x1b}
+		r := &core.Rng{S: c.Seed ^ 0x1b}
 		mw, err := realip.Middleware([]string{"10.0.0.0/8", "192.168.7.7", "fd00::/8", "2001:db8::1"})
 		if err != nil {
 			return err
@@ -316,27 +318,27 @@ func init() {
 		hdrCert, _ := mkCert("hdr", 2, nil, nil, false, nil, now.Add(-time.Hour), now.Add(time.Hour))
 		pool := []string{"10.0.0.1", "10.9.9.9", "192.168.7.7", "192.168.7.8", "192.168.7.6", "203.0.113.9", "198.51.100.7", "fd00::1", "2001:db8::1", "2001:db8::2", "2001:db8:ffff::66", "2001:db9::1", "11.0.0.1", "bogus", "", "@"}
 		n := 600
-		if c.tier == "thorough" {
+		if c.Tier == "thorough" {
 			n = 6000
 		}
 		for i := 0; i < n; i++ {
-			cs := &ipcase{ID: i, HasHdr: r.chance(60), HasTLS: r.chance(60)}
-			p := pool[r.intn(len(pool)-3)]
+			cs := &ipcase{ID: i, HasHdr: r.Chance(60), HasTLS: r.Chance(60)}
+			p := pool[r.Intn(len(pool)-3)]
 			if strings.Contains(p, ":") {
 				cs.Peer = "[" + p + "]:443"
 			} else {
 				cs.Peer = p + ":443"
 			}
-			if r.chance(10) {
+			if r.Chance(10) {
 				cs.Peer = "@"
 			}
-			nh := r.intn(3)
+			nh := r.Intn(3)
 			for j := 0; j < nh; j++ {
 				var hops []string
-				for k := 0; k <= r.intn(3); k++ {
-					hops = append(hops, pool[r.intn(len(pool))])
+				for k := 0; k <= r.Intn(3); k++ {
+					hops = append(hops, pool[r.Intn(len(pool))])
 				}
-				cs.XFF = append(cs.XFF, strings.Join(hops, []string{",", ", ", " ,"}[r.intn(3)]))
+				cs.XFF = append(cs.XFF, strings.Join(hops, []string{",", ", ", " ,"}[r.Intn(3)]))
 			}
 			req := httptest.NewRequest("GET", "/", nil)
 			req.RemoteAddr = cs.Peer
@@ -362,7 +364,7 @@ func init() {
 					cs.CertSrc = "hdr"
 				}
 			})).ServeHTTP(httptest.NewRecorder(), req)
-			c.emit(cs)
+			c.Emit(cs)
 		}
 		return nil
 	}
